@@ -2,7 +2,7 @@
    Theorem for the bit-exact model of mpf_mul; the accuracy certificate that the correspondence
    check evaluates on every other function's result is characterised here.  Statements only. *)
 From Coq Require Import ZArith List Bool.
-From Mpir Require Import MpfAddDefs MpfAddProofs Word DivDefs MpfDefs MpfProofs.
+From Mpir Require Import MpfAddDefs MpfAddProofs MpfSubDefs MpfSubProofs Word DivDefs MpfDefs MpfProofs.
 Import ListNotations.
 Local Open Scope Z_scope.
 
@@ -75,6 +75,34 @@ Theorem C13_mpf_add_sign : forall prec u v pu pv,
   /\ Z.max (fexp u) (fexp v) <= fexp (mpf_add prec u v) <= Z.max (fexp u) (fexp v) + 1.
 Proof. exact mpf_add_sign. Qed.
 Print Assumptions C13_mpf_add_sign.
+
+
+(* ---- mpf_sub as coded (mpf/sub.c, 400 lines: stripping of equal leading limbs, the x+1 / x pattern with its runs of 00 / ff limbs,
+   the near-cancellation path, five layouts with negated low parts, normalisation), bit-exact model MpfSubDefs.v ---- *)
+(* operands of equal sign (a true subtraction of magnitudes), any lengths, any destination precision >= 1 limb: the result is well
+   formed, within 2^(-p) of the EXACT difference - also under near-total cancellation of operands longer than the destination -
+   zero exactly when u = v, and exact whenever every limb below the kept window is zero *)
+Theorem C13_mpf_sub_accurate : forall prec u v pu pv,
+  1 <= prec -> mpf_wf pu u -> mpf_wf pv v -> same_sign u v ->
+  mpf_wf prec (mpf_sub prec u v)
+  /\ acc_ok (bits_of_prec prec + 2) (sub_num u v) (sub_den u v) (fnum (mpf_sub prec u v)) (fden (mpf_sub prec u v)) = true
+  /\ (sub_nothing_lost prec u v -> fnum (mpf_sub prec u v) * sub_den u v = sub_num u v * fden (mpf_sub prec u v)).
+Proof. exact mpf_sub_accurate_sharp. Qed.
+Print Assumptions C13_mpf_sub_accurate.
+
+(* any signs (different signs go through the mpf_add model, as in the C code) *)
+Theorem C13_mpf_sub_any_sign : forall prec u v pu pv,
+  1 <= prec -> mpf_wf pu u -> mpf_wf pv v ->
+  mpf_wf prec (mpf_sub_full prec u v)
+  /\ acc_ok (bits_of_prec prec + 1) (sub_num u v) (sub_den u v) (fnum (mpf_sub_full prec u v)) (fden (mpf_sub_full prec u v)) = true
+  /\ (add_window prec u v -> fnum (mpf_sub_full prec u v) * sub_den u v = sub_num u v * fden (mpf_sub_full prec u v)).
+Proof. exact mpf_sub_full_accurate. Qed.
+Print Assumptions C13_mpf_sub_any_sign.
+
+Theorem C13_mpf_sub_sign : forall prec u v pu pv,
+  1 <= prec -> mpf_wf pu u -> mpf_wf pv v -> same_sign u v -> Z.sgn (fnum (mpf_sub prec u v)) = Z.sgn (sub_num u v).
+Proof. exact mpf_sub_sign. Qed.
+Print Assumptions C13_mpf_sub_sign.
 
 Example C13_nonvacuous :
   mpf_wf 3 (mkf false (B + 5) 2 1) /\ mpf_mul 2 (mkf false (B + 5) 2 1) (mkf true 3 1 1) = mkf true (3 * B + 15) 2 1
